@@ -22,12 +22,12 @@ theorem deadAfterCall_pinned : deadAfterCall =
 section hkey
 variable {α V W X S : Type} (o : ElemsOps α) (T : Nat) (env : Env (MElemF α) V W X S GE)
 
-theorem hkeySplitFull_loop (hE : EnvH o T env) (mid data : Nat) (hd : data < 2^32) (hmid : mid < 2^32)
+theorem msl_hkeySplitFull_loop (hE : EnvH o T env) (mid data : Nat) (hd : data < 2^32) (hmid : mid < 2^32)
     (rest : List (MElemF α)) (i ls : Nat)
-    (hsum : ls + (dg (rest.map (fun el => el.size o))).sum ≤ data) :
+    (hsum : ls + (dg (rest.map (fun msl_el => msl_el.size o))).sum ≤ data) :
     hkeyElements_Split.loop1 env (u32 data) (u32 mid) rest (Int.ofNat i) (u32 ls) 0 =
-      .done (u32 (HkeyElems.splitLoop mid data (dg (rest.map (fun el => el.size o))) i ls).2,
-             Int.ofNat (HkeyElems.splitLoop mid data (dg (rest.map (fun el => el.size o))) i ls).1) := by
+      .done (u32 (HkeyElems.splitLoop mid data (dg (rest.map (fun msl_el => msl_el.size o))) i ls).2,
+             Int.ofNat (HkeyElems.splitLoop mid data (dg (rest.map (fun msl_el => msl_el.size o))) i ls).1) := by
   induction rest generalizing i ls with
   | nil => simp [dg, hkeyElements_Split.loop1, HkeyElems.splitLoop]
   | cons x t ih =>
@@ -61,11 +61,11 @@ theorem hkeyElements_Split_full_eq_model (hE : EnvH o T env) (e : HkeyElems α) 
   have e1 : (1 : UInt32) = u32 1 := rfl
   have e0 : (0 : UInt32) = u32 0 := rfl
   rw [e8, e1, e0, u32_sub (by omega) hs, u32_add (by omega), u32_half' (by omega)]
-  have hloop := hkeySplitFull_loop o T env hE ((e.size - 8 + 1) / 2) (e.size - 8) (by omega) (by omega) e.elems 0 0
+  have hloop := msl_hkeySplitFull_loop o T env hE ((e.size - 8 + 1) / 2) (e.size - 8) (by omega) (by omega) e.elems 0 0
     (by simpa [rawSizes] using (show 0 + (dg (rawSizes o e)).sum ≤ e.size - 8 by omega))
   have hb := splitLoop_bounds ((e.size - 8 + 1) / 2) (e.size - 8) (dg (rawSizes o e)) 0 0
   rw [hlen'] at hb
-  have hr : e.elems.map (fun el => el.size o) = rawSizes o e := rfl
+  have hr : e.elems.map (fun msl_el => msl_el.size o) = rawSizes o e := rfl
   rw [hr] at hloop
   have hz : (Int.ofNat 0) = (0 : Int) := rfl
   rw [hz] at hloop
@@ -74,8 +74,8 @@ theorem hkeyElements_Split_full_eq_model (hE : EnvH o T env) (e : HkeyElems α) 
   obtain ⟨lc, ls⟩ := r
   simp only at hb ⊢
   have hlc1 : lc ≤ (u64s e.hkeys).length := by rw [u64s_length]; omega
-  rw [split_eq _ lc hlc1, split_eq _ lc (by omega)]
-  simp only [u64s_take, u64s_drop]
+  rw [msl_split_eq _ lc hlc1, msl_split_eq _ lc (by omega)]
+  simp only [msl_u64s_take, msl_u64s_drop]
   rw [u32_sub (by omega) (by omega), u32_add (by omega), u32_add (by omega)]
 
 /-- `hkeyElements.Merge` IN FULL: digests and elements appended, size added (the right prefix counted once); the
@@ -84,8 +84,8 @@ theorem hkeyElements_Merge_full_eq_model (l r : HkeyElems α) (hr8 : Gen.hkeyEle
     (hsz : l.size + r.size < 2^32) :
     hkeyElements_Merge env (cH l) (.hkey (cH r)) = some (none, cH (HkeyElems.merge l r)) := by
   simp only [Gen.hkeyElementsPrefixSize] at hr8
-  simp only [hkeyElements_Merge, hkeyElements_Size, HkeyElems.merge, cH, merge_eq, Bool.not_true, Bool.false_eq_true,
-    if_false, Gen.hkeyElementsPrefixSize, u64s_append]
+  simp only [hkeyElements_Merge, hkeyElements_Size, HkeyElems.merge, cH, msl_merge_eq, Bool.not_true, Bool.false_eq_true,
+    if_false, Gen.hkeyElementsPrefixSize, msl_u64s_append]
   have e8 : UInt32.ofNat 8 = u32 8 := rfl
   rw [e8, u32_sub hr8 (by omega), u32_add (by omega)]
 
@@ -98,27 +98,27 @@ theorem hkeyElements_Merge_wrong_type (hE : EnvH o T env) (l : HkeyElems α) (x 
   | nil => simp [hkeyElements_Merge, hE.eMerge]
   | single s => simp [hkeyElements_Merge, hE.eMerge]
 
-theorem goIdx_ofNat {β : Type} (l : List β) (n : Nat) (h : n < l.length) : goIdx l (Int.ofNat n) = some l[n] := by
+theorem msl_goIdx_ofNat {β : Type} (l : List β) (n : Nat) (h : n < l.length) : goIdx l (Int.ofNat n) = some l[n] := by
   simp [goIdx, h]
 
-theorem hkeyLendFull_loop (hE : EnvH o T env) (minS size mid : Nat) (hm : minS < 2^32) (hsz : size < 2^32)
+theorem msl_hkeyLendFull_loop (hE : EnvH o T env) (minS size mid : Nat) (hm : minS < 2^32) (hsz : size < 2^32)
     (hmid : mid < 2^32) (e : hkeyElements (MElemF α)) (n : Nat) (hn : n ≤ e.elems.length) (lc ls : Nat) (hlc : n ≤ lc)
-    (hls : ((dg (e.elems.map (fun el => el.size o))).take n).sum ≤ ls) (hls2 : ls ≤ size) :
+    (hls : ((dg (e.elems.map (fun msl_el => msl_el.size o))).take n).sum ≤ ls) (hls2 : ls ≤ size) :
     hkeyElements_LendToRight.loop1 env e (u32 minS) (u32 size) (u32 mid) n (Int.ofNat lc) (u32 ls) =
-      .done (Int.ofNat (HkeyElems.lendLoop minS size mid ((dg (e.elems.map (fun el => el.size o))).take n).reverse lc ls).1,
-             u32 (HkeyElems.lendLoop minS size mid ((dg (e.elems.map (fun el => el.size o))).take n).reverse lc ls).2) := by
+      .done (Int.ofNat (HkeyElems.lendLoop minS size mid ((dg (e.elems.map (fun msl_el => msl_el.size o))).take n).reverse lc ls).1,
+             u32 (HkeyElems.lendLoop minS size mid ((dg (e.elems.map (fun msl_el => msl_el.size o))).take n).reverse lc ls).2) := by
   induction n generalizing lc ls with
   | zero => simp [hkeyElements_LendToRight.loop1, HkeyElems.lendLoop]
   | succ n ih =>
-    have hlt : n < (dg (e.elems.map (fun el => el.size o))).length := by rw [dg_length, List.length_map]; omega
+    have hlt : n < (dg (e.elems.map (fun msl_el => msl_el.size o))).length := by rw [dg_length, List.length_map]; omega
     have hlt' : n < e.elems.length := by omega
     rw [sum_take_succ _ _ hlt] at hls
     rw [take_succ_reverse _ _ hlt]
     rw [dg_getD _ _ (by rw [List.length_map]; omega)] at hls ⊢
-    have hget : (e.elems.map (fun el => el.size o)).getD n 0 = (e.elems[n]).size o := by
+    have hget : (e.elems.map (fun msl_el => msl_el.size o)).getD n 0 = (e.elems[n]).size o := by
       simp [List.getD_eq_getElem?_getD, List.getElem?_map, List.getElem?_eq_getElem hlt']
     rw [hget] at hls ⊢
-    simp only [hkeyElements_LendToRight.loop1, HkeyElems.lendLoop, goIdx_ofNat _ _ hlt', hE.size]
+    simp only [hkeyElements_LendToRight.loop1, HkeyElems.lendLoop, msl_goIdx_ofNat _ _ hlt', hE.size]
     have ih' := fun lc ls h1 h3 h4 => ih (by omega) lc ls h1 h3 h4
     generalize (e.elems[n]).size o = x at *
     rw [u32_add (show x + Gen.digestSize < 2^32 by omega)]
@@ -156,9 +156,12 @@ theorem hkeyElements_LendToRight_full_eq_model (hE : EnvH o T env) (l r : HkeyEl
   have hq : (u64 l.level = u64 r.level) = (l.level = r.level) := by
     simp only [u64, ← UInt64.toNat_inj, UInt64.toNat_ofNat', eq_iff_iff]
     constructor <;> intro h <;> omega
+  -- the comparison written the other way round (`rightElements.level != e.level`) is the same function
+  have hq' : (u64 r.level = u64 l.level) = (l.level = r.level) := by
+    rw [← hq]; exact propext ⟨Eq.symm, Eq.symm⟩
   by_cases hlev : l.level = r.level
   · simp only [hlev, ne_eq, not_true_eq_false, if_false]
-    simp only [hkeyElements_LendToRight, hkeyElements_Size, cH, hE.minThr, ne_eq, hq, hlev, not_true_eq_false,
+    simp only [hkeyElements_LendToRight, hkeyElements_Size, cH, hE.minThr, ne_eq, hq, hq', hlev, not_true_eq_false,
       decide_false, Bool.false_eq_true, if_false]
     simp only [Gen.hkeyElementsPrefixSize, Gen.mapDataSlabPrefixSize] at hpre hT2 hr8 ⊢
     have e8 : UInt32.ofNat 8 = u32 8 := rfl
@@ -169,14 +172,14 @@ theorem hkeyElements_LendToRight_full_eq_model (hE : EnvH o T env) (l r : HkeyEl
       simp only [Int.ofNat_eq_natCast]; omega
     rw [e8, e18, e16, e1, efuel, u32_sub (by omega) hT, u32_sub (by omega) (by omega), u32_add hsz,
       u32_sub (by omega) (by omega), u32_sub (by omega) (by omega), u32_add (by omega), u32_half' (by omega)]
-    have hloop := hkeyLendFull_loop o T env hE (minThr T - 18 - 8) (l.size + r.size - 16) ((l.size + r.size - 16 + 1) / 2)
+    have hloop := msl_hkeyLendFull_loop o T env hE (minThr T - 18 - 8) (l.size + r.size - 16) ((l.size + r.size - 16 + 1) / 2)
       (by omega) (by omega) (by omega) (cH l) l.elems.length (by simp [cH]) l.elems.length (l.size - 8)
       (by omega)
       (by
         have := sum_take_le (dg (rawSizes o l)) l.elems.length
         show ((dg (rawSizes o l)).take l.elems.length).sum ≤ l.size - 8
         omega) (by omega)
-    have hr : (cH l).elems.map (fun el => el.size o) = rawSizes o l := rfl
+    have hr : (cH l).elems.map (fun msl_el => msl_el.size o) = rawSizes o l := rfl
     rw [hr, ← hlen2, List.take_length, hlen2] at hloop
     have hce : (cH l) = { hkeys := u64s l.hkeys, elems := l.elems, size := u32 l.size, level := u64 r.level } := by
       simp [cH, hlev]
@@ -192,19 +195,19 @@ theorem hkeyElements_LendToRight_full_eq_model (hE : EnvH o T env) (l r : HkeyEl
     simp only at hb ⊢
     have emv : Int.ofNat l.elems.length - Int.ofNat lc = Int.ofNat (l.elems.length - lc) := by
       simp only [Int.ofNat_eq_natCast]; omega
-    rw [emv, lendToRight_eq _ _ _ (by rw [u64s_length]; omega), lendToRight_eq _ _ _ (by omega)]
-    simp only [u64s_length, hlen, u64s_take, u64s_drop, u64s_append]
+    rw [emv, msl_lendToRight_eq _ _ _ (by rw [u64s_length]; omega), msl_lendToRight_eq _ _ _ (by omega)]
+    simp only [u64s_length, hlen, msl_u64s_take, msl_u64s_drop, msl_u64s_append]
     have hk : l.elems.length - (l.elems.length - lc) = lc := by omega
     rw [hk, u32_sub (by omega) (by omega), u32_add (by omega), u32_add (by omega)]
   · simp only [ne_eq, hlev, not_false_eq_true, if_true]
-    simp only [hkeyElements_LendToRight, cH, ne_eq, hq, hlev, not_false_eq_true, decide_true, if_true, hE.eRebalance]
+    simp only [hkeyElements_LendToRight, cH, ne_eq, hq, hq', hlev, not_false_eq_true, decide_true, if_true, hE.eRebalance]
 
-theorem hkeyBorrowFull_loop (hE : EnvH o T env) (minS size mid : Nat) (hm : minS < 2^32) (hsz : size < 2^32)
+theorem msl_hkeyBorrowFull_loop (hE : EnvH o T env) (minS size mid : Nat) (hm : minS < 2^32) (hsz : size < 2^32)
     (hmid : mid < 2^32) (rest : List (MElemF α)) (i : Int) (lc ls : Nat)
-    (hls : ls + (dg (rest.map (fun el => el.size o))).sum ≤ size) :
+    (hls : ls + (dg (rest.map (fun msl_el => msl_el.size o))).sum ≤ size) :
     hkeyElements_BorrowFromRight.loop1 env (u32 minS) (u32 size) (u32 mid) rest i (Int.ofNat lc) (u32 ls) =
-      .done (Int.ofNat (HkeyElems.borrowLoop minS size mid (dg (rest.map (fun el => el.size o))) lc ls).1,
-             u32 (HkeyElems.borrowLoop minS size mid (dg (rest.map (fun el => el.size o))) lc ls).2) := by
+      .done (Int.ofNat (HkeyElems.borrowLoop minS size mid (dg (rest.map (fun msl_el => msl_el.size o))) lc ls).1,
+             u32 (HkeyElems.borrowLoop minS size mid (dg (rest.map (fun msl_el => msl_el.size o))) lc ls).2) := by
   induction rest generalizing i lc ls with
   | nil => simp [dg, hkeyElements_BorrowFromRight.loop1, HkeyElems.borrowLoop]
   | cons x t ih =>
@@ -241,9 +244,12 @@ theorem hkeyElements_BorrowFromRight_full_eq_model (hE : EnvH o T env) (l r : Hk
   have hq : (u64 l.level = u64 r.level) = (l.level = r.level) := by
     simp only [u64, ← UInt64.toNat_inj, UInt64.toNat_ofNat', eq_iff_iff]
     constructor <;> intro h <;> omega
+  -- the comparison written the other way round (`rightElements.level != e.level`) is the same function
+  have hq' : (u64 r.level = u64 l.level) = (l.level = r.level) := by
+    rw [← hq]; exact propext ⟨Eq.symm, Eq.symm⟩
   by_cases hlev : l.level = r.level
   · simp only [hlev, ne_eq, not_true_eq_false, if_false]
-    simp only [hkeyElements_BorrowFromRight, hkeyElements_Size, cH, hE.minThr, ne_eq, hq, hlev, not_true_eq_false,
+    simp only [hkeyElements_BorrowFromRight, hkeyElements_Size, cH, hE.minThr, ne_eq, hq, hq', hlev, not_true_eq_false,
       decide_false, Bool.false_eq_true, if_false]
     simp only [Gen.hkeyElementsPrefixSize, Gen.mapDataSlabPrefixSize] at hpre hT2 hl8 ⊢
     have e8 : UInt32.ofNat 8 = u32 8 := rfl
@@ -252,10 +258,10 @@ theorem hkeyElements_BorrowFromRight_full_eq_model (hE : EnvH o T env) (l r : Hk
     have e1 : (1 : UInt32) = u32 1 := rfl
     rw [e8, e18, e16, e1, u32_sub (by omega) hT, u32_sub (by omega) (by omega), u32_add hsz,
       u32_sub (by omega) (by omega), u32_sub (by omega) (by omega), u32_add (by omega), u32_half' (by omega)]
-    have hloop := hkeyBorrowFull_loop o T env hE (minThr T - 18 - 8) (l.size + r.size - 16) ((l.size + r.size - 16 + 1) / 2)
+    have hloop := msl_hkeyBorrowFull_loop o T env hE (minThr T - 18 - 8) (l.size + r.size - 16) ((l.size + r.size - 16 + 1) / 2)
       (by omega) (by omega) (by omega) r.elems 0 l.elems.length (l.size - 8)
       (by show l.size - 8 + (dg (rawSizes o r)).sum ≤ l.size + r.size - 16; omega)
-    have hr : r.elems.map (fun el => el.size o) = rawSizes o r := rfl
+    have hr : r.elems.map (fun msl_el => msl_el.size o) = rawSizes o r := rfl
     rw [hr] at hloop
     rw [hloop]
     have hb := borrowLoop_bounds (minThr T - 18 - 8) (l.size + r.size - 16) ((l.size + r.size - 16 + 1) / 2)
@@ -269,11 +275,11 @@ theorem hkeyElements_BorrowFromRight_full_eq_model (hE : EnvH o T env) (l r : Hk
     simp only at hb ⊢
     have emv : Int.ofNat lc - Int.ofNat l.elems.length = Int.ofNat (lc - l.elems.length) := by
       simp only [Int.ofNat_eq_natCast]; omega
-    rw [emv, borrowFromRight_eq _ _ _ (by rw [u64s_length]; omega), borrowFromRight_eq _ _ _ (by omega)]
-    simp only [u64s_take, u64s_drop, u64s_append]
+    rw [emv, msl_borrowFromRight_eq _ _ _ (by rw [u64s_length]; omega), msl_borrowFromRight_eq _ _ _ (by omega)]
+    simp only [msl_u64s_take, msl_u64s_drop, msl_u64s_append]
     rw [u32_add (by omega), u32_sub (by omega) (by omega), u32_add (by omega)]
   · simp only [ne_eq, hlev, not_false_eq_true, if_true]
-    simp only [hkeyElements_BorrowFromRight, cH, ne_eq, hq, hlev, not_false_eq_true, decide_true, if_true, hE.eRebalance]
+    simp only [hkeyElements_BorrowFromRight, cH, ne_eq, hq, hq', hlev, not_false_eq_true, decide_true, if_true, hE.eRebalance]
 
 end hkey
 
@@ -301,7 +307,7 @@ def envM {α : Type} (o : ElemsOps α) (T L : Nat) : Env (MElemF α) Unit Unit U
   Storable_ByteSize := fun _ => 0
   ValueComparator := fun c _ _ => (false, none, c)
   Value_Storable := fun _ c _ _ => (none, none, c)
-  element_Size := fun el => u32 (el.size o)
+  element_Size := fun msl_el => u32 (msl_el.size o)
   maxInlineMapValueSize := fun x => x
   minThreshold := u32 (minThr T)
   newSingleElement := fun c _ _ _ => ({ key := none, value := none }, none, c)
@@ -324,46 +330,46 @@ theorem envM_EnvS {α : Type} (o : ElemsOps α) (T L : Nat) : EnvS (envM o T L) 
 
 section examples
 
-private def o0 : ElemsOps SingleElems := SingleElems.ops
-private def el (n pay : Nat) : MElemF SingleElems :=
+private def msl_o0 : ElemsOps SingleElems := SingleElems.ops
+private def msl_el (n pay : Nat) : MElemF SingleElems :=
   .single { key := { size := 1, pay := pay, digs := [pay] }, val := { size := n - 2, pay := .val pay }, size := n }
 /-- three elements of 20, 30, 40 bytes (+ 8 per digest): 8 + 28 + 38 + 48 = 122 -/
-private def gEx : HkeyElems SingleElems :=
-  { hkeys := [5, 9, 12], elems := [el 20 1, el 30 2, el 40 3], size := 122, level := 0 }
-private def gR : HkeyElems SingleElems :=
-  { hkeys := [20], elems := [el 20 4], size := 36, level := 0 }
+private def msl_gEx : HkeyElems SingleElems :=
+  { hkeys := [5, 9, 12], elems := [msl_el 20 1, msl_el 30 2, msl_el 40 3], size := 122, level := 0 }
+private def msl_gR : HkeyElems SingleElems :=
+  { hkeys := [20], elems := [msl_el 20 4], size := 36, level := 0 }
 
 /-- Split of the three-element group: digests and elements `[5, 9] | [12]`, sizes 74 and 56 -/
-example : hkeyElements_Split (envM o0 256 4) (cH gEx) =
-    some (.hkey (cH { hkeys := [5, 9], elems := [el 20 1, el 30 2], size := 74, level := 0 }),
-          .hkey (cH { hkeys := [12], elems := [el 40 3], size := 56, level := 0 }), none,
-          cH { hkeys := [5, 9], elems := [el 20 1, el 30 2], size := 74, level := 0 }) := by
-  rw [hkeyElements_Split_full_eq_model o0 256 _ (envM_EnvH o0 256 4) gEx (by decide) (by decide) (by decide)]; rfl
+example : hkeyElements_Split (envM msl_o0 256 4) (cH msl_gEx) =
+    some (.hkey (cH { hkeys := [5, 9], elems := [msl_el 20 1, msl_el 30 2], size := 74, level := 0 }),
+          .hkey (cH { hkeys := [12], elems := [msl_el 40 3], size := 56, level := 0 }), none,
+          cH { hkeys := [5, 9], elems := [msl_el 20 1, msl_el 30 2], size := 74, level := 0 }) := by
+  rw [hkeyElements_Split_full_eq_model msl_o0 256 _ (envM_EnvH msl_o0 256 4) msl_gEx (by decide) (by decide) (by decide)]; rfl
 
 /-- Merge with the one-element group: four digests, size 122 + 36 - 8 -/
-example : hkeyElements_Merge (envM o0 256 4) (cH gEx) (.hkey (cH gR)) =
-    some (none, cH { hkeys := [5, 9, 12, 20], elems := [el 20 1, el 30 2, el 40 3, el 20 4], size := 150, level := 0 }) := by
-  rw [hkeyElements_Merge_full_eq_model _ gEx gR (by decide) (by decide)]; rfl
+example : hkeyElements_Merge (envM msl_o0 256 4) (cH msl_gEx) (.hkey (cH msl_gR)) =
+    some (none, cH { hkeys := [5, 9, 12, 20], elems := [msl_el 20 1, msl_el 30 2, msl_el 40 3, msl_el 20 4], size := 150, level := 0 }) := by
+  rw [hkeyElements_Merge_full_eq_model _ msl_gEx msl_gR (by decide) (by decide)]; rfl
 
 /-- LendToRight to the one-element group (T = 256: the right group must reach minThreshold - 18 - 8 = 102 bytes): the
     last TWO elements and their digests move -/
-example : hkeyElements_LendToRight (envM o0 256 4) (cH gEx) (.hkey (cH gR)) =
-    some (none, cH { hkeys := [5], elems := [el 20 1], size := 36, level := 0 },
-          .hkey (cH { hkeys := [9, 12, 20], elems := [el 30 2, el 40 3, el 20 4], size := 122, level := 0 })) := by
-  rw [hkeyElements_LendToRight_full_eq_model o0 256 _ (envM_EnvH o0 256 4) gEx gR (by decide) (by decide) (by decide)
+example : hkeyElements_LendToRight (envM msl_o0 256 4) (cH msl_gEx) (.hkey (cH msl_gR)) =
+    some (none, cH { hkeys := [5], elems := [msl_el 20 1], size := 36, level := 0 },
+          .hkey (cH { hkeys := [9, 12, 20], elems := [msl_el 30 2, msl_el 40 3, msl_el 20 4], size := 122, level := 0 })) := by
+  rw [hkeyElements_LendToRight_full_eq_model msl_o0 256 _ (envM_EnvH msl_o0 256 4) msl_gEx msl_gR (by decide) (by decide) (by decide)
     (by decide) (by decide) (by decide) (by decide) (by decide)]; rfl
 
 /-- BorrowFromRight in the other direction -/
-example : hkeyElements_BorrowFromRight (envM o0 256 4) (cH gR) (.hkey (cH gEx)) =
-    some (none, cH { hkeys := [20, 5], elems := [el 20 4, el 20 1], size := 64, level := 0 },
-          .hkey (cH { hkeys := [9, 12], elems := [el 30 2, el 40 3], size := 94, level := 0 })) := by
-  rw [hkeyElements_BorrowFromRight_full_eq_model o0 256 _ (envM_EnvH o0 256 4) gR gEx (by decide) (by decide) (by decide)
+example : hkeyElements_BorrowFromRight (envM msl_o0 256 4) (cH msl_gR) (.hkey (cH msl_gEx)) =
+    some (none, cH { hkeys := [20, 5], elems := [msl_el 20 4, msl_el 20 1], size := 64, level := 0 },
+          .hkey (cH { hkeys := [9, 12], elems := [msl_el 30 2, msl_el 40 3], size := 94, level := 0 })) := by
+  rw [hkeyElements_BorrowFromRight_full_eq_model msl_o0 256 _ (envM_EnvH msl_o0 256 4) msl_gR msl_gEx (by decide) (by decide) (by decide)
     (by decide) (by decide) (by decide) (by decide) (by decide)]; rfl
 
 /-- different levels: the rebalance error, both groups untouched -/
-example : hkeyElements_LendToRight (envM o0 256 4) (cH gEx) (.hkey (cH { gR with level := 1 })) =
-    some (some .slabRebalance, cH gEx, .hkey (cH { gR with level := 1 })) := by
-  rw [hkeyElements_LendToRight_full_eq_model o0 256 _ (envM_EnvH o0 256 4) gEx { gR with level := 1 } (by decide) (by decide)
+example : hkeyElements_LendToRight (envM msl_o0 256 4) (cH msl_gEx) (.hkey (cH { msl_gR with level := 1 })) =
+    some (some .slabRebalance, cH msl_gEx, .hkey (cH { msl_gR with level := 1 })) := by
+  rw [hkeyElements_LendToRight_full_eq_model msl_o0 256 _ (envM_EnvH msl_o0 256 4) msl_gEx { msl_gR with level := 1 } (by decide) (by decide)
     (by decide) (by decide) (by decide) (by decide) (by decide) (by decide)]; rfl
 
 end examples
